@@ -17,7 +17,7 @@ def edge_case(ctx, sim):
 
 def run(ctx):
     drv = common.LeanDriver()
-    per = ctx.scale(40, 400)
+    per = ctx.scale(120, 600)
     reqs, metas = [], []
     for sim in allsims.SIMS:
         for k in range(per):
